@@ -278,6 +278,10 @@ def run_case(case):
                 else:
                     res.inconclusive += 1
                 return res
+            if float(out.abs().max()) > 1e6:
+                res.inconclusive += 1    # exp-type growth in the sampling direction (LogTanh^-1): the way back loses the small part
+                res.labels.append("astronomical_samples")
+                return res
             res.nontrivial = rows >= 2
             thr = ks_threshold(N)
             for i in range(rows):
